@@ -407,6 +407,7 @@ func (fv *FuncVerifier) evalFuncCall(fn *types.Func, call *ast.CallExpr, st *Sta
 		if isIgnoredKey(key) {
 			fv.u.note("ignored call %s (no effect on modelled state)", key)
 			fv.evalReceiverChain(call, st)
+			fv.havocAddressedLocals(call, st)
 			for _, a := range call.Args {
 				if fv.hasEffects(a) {
 					fv.eval(a, st)
@@ -419,6 +420,7 @@ func (fv *FuncVerifier) evalFuncCall(fn *types.Func, call *ast.CallExpr, st *Sta
 				if fn.Pkg().Path() == ip || strings.HasPrefix(fn.Pkg().Path(), ip+"/") {
 					fv.u.note("calls into %s are ignored here (opaque results, no modelled effect): %s", ip, key)
 					fv.evalReceiverChain(call, st)
+					fv.havocAddressedLocals(call, st)
 					return fv.havocResults(sig.Results(), st)
 				}
 			}
@@ -432,6 +434,8 @@ func (fv *FuncVerifier) evalFuncCall(fn *types.Func, call *ast.CallExpr, st *Sta
 	switch sp.Kind {
 	case SKIgnore:
 		fv.u.note("ignored call %s (declared ignore)", key)
+		fv.evalReceiverChain(call, st)
+		fv.havocAddressedLocals(call, st)
 		return fv.havocResults(sig.Results(), st)
 	case SKPure, SKSpecFunc:
 		args, _ := fv.receiverAndArgs(fn, call, st)
@@ -616,6 +620,33 @@ func errIs(e, target Term) Term {
 	return and(not(eq(e, Term{"0", sortInt})), mk(sortBool, "(= (err_root %s) (err_root %s))", e.S, target.S))
 }
 
+// havocAddressedLocals: an ignored callee may write through &x arguments.
+func (fv *FuncVerifier) havocAddressedLocals(call *ast.CallExpr, st *State) {
+	for _, a := range call.Args {
+		u, ok := ast.Unparen(a).(*ast.UnaryExpr)
+		if !ok || u.Op != token.AND {
+			continue
+		}
+		id, ok := ast.Unparen(u.X).(*ast.Ident)
+		if !ok {
+			continue
+		}
+		obj := fv.info().Uses[id]
+		if obj == nil {
+			continue
+		}
+		srt := fv.sortOf(obj.Type())
+		if srt == nil {
+			delete(st.vars, obj)
+			continue
+		}
+		v := fv.u.freshConst(id.Name, srt)
+		fv.assumeTyped(st, v, obj.Type())
+		st.vars[obj] = v
+		fv.u.note("local %s passed by address to an ignored call: its value is arbitrary afterwards", id.Name)
+	}
+}
+
 // evalReceiverChain: for an ignored call x.f(...).g(...), still visit the calls that
 // produce the receiver (they may carry atcall assertions or contracts).
 func (fv *FuncVerifier) evalReceiverChain(call *ast.CallExpr, st *State) {
@@ -626,6 +657,7 @@ func (fv *FuncVerifier) evalReceiverChain(call *ast.CallExpr, st *State) {
 	if inner, ok := ast.Unparen(se.X).(*ast.CallExpr); ok {
 		fv.evalCall(inner, st, true)
 	}
+	_ = call
 }
 
 // packVariadic packs the trailing arguments of a variadic call into one slice term,
@@ -781,7 +813,13 @@ func tsubstKey(m map[*types.TypeParam]types.Type) string {
 // ---------------------------------------------------------------- pure functions
 
 func (fv *FuncVerifier) pureApp(fn *types.Func, sp *FuncSpec, args []Term, st *State, p token.Pos) []Term {
-	if fd := fv.prog.decls[sp.Key]; fd == nil || fd.decl.Body == nil {
+	abstract := false
+	for _, n := range strings.FieldsFunc(fv.spec.Pragmas["abstract"], func(r rune) bool { return r == ',' || r == ' ' }) {
+		if n == fn.Name() {
+			abstract = true
+		}
+	}
+	if fd := fv.prog.decls[sp.Key]; fd == nil || fd.decl.Body == nil || abstract {
 		// interface method (or external function) declared pure: an uninterpreted,
 		// deterministic function of its arguments
 		var ps []string
